@@ -825,10 +825,15 @@ func c13EvalSet(c *Ctx, raw []byte) {
 }
 
 func c13TemplateText(p *c13Template) (text string, expect *string, yamlTree W) {
-	var sb, eb strings.Builder
+	var sb, eb, lb strings.Builder // text, expected rendering, text with every action replaced by \x00
 	known := true
 	dc, _ := wireCont(p.Data)
 	for _, part := range p.Parts {
+		if part.Fail || part.Raw != "" || part.Ref != "" {
+			lb.WriteByte(0)
+		} else if part.Yaml == nil {
+			lb.WriteString(part.Lit)
+		}
 		switch {
 		case part.Yaml != nil:
 			b, err := yaml.Marshal(wirePlain(part.Yaml))
@@ -862,6 +867,9 @@ func c13TemplateText(p *c13Template) (text string, expect *string, yamlTree W) {
 			sb.WriteString(part.Lit)
 			eb.WriteString(part.Lit)
 		}
+	}
+	if l := lb.String(); strings.Contains(l, "{{") || strings.Contains(l, "{\x00") {
+		known = false // adjacent literals form an action delimiter the generator did not intend
 	}
 	if known {
 		e := eb.String()
